@@ -1,0 +1,30 @@
+//! Event log of the type checker's union-find, for trace validation against a specification.
+//! Compiled only with `--cfg sylt_verif`; off unless `start()` was called on this thread.
+
+use std::cell::RefCell;
+
+thread_local! {
+    static EVENTS: RefCell<Option<Vec<String>>> = RefCell::new(None);
+}
+
+/// Start recording on this thread (drops what was recorded before).
+pub fn start() {
+    EVENTS.with(|e| *e.borrow_mut() = Some(Vec::new()));
+}
+
+/// Stop recording and return the events, one JSON object per entry.
+pub fn take() -> Vec<String> {
+    EVENTS.with(|e| e.borrow_mut().take().unwrap_or_default())
+}
+
+pub(crate) fn enabled() -> bool {
+    EVENTS.with(|e| e.borrow().is_some())
+}
+
+pub(crate) fn emit(event: String) {
+    EVENTS.with(|e| {
+        if let Some(events) = e.borrow_mut().as_mut() {
+            events.push(event);
+        }
+    });
+}
